@@ -304,7 +304,7 @@ func (m *SessionModel) sessionField(v ssa.Value) string {
 	if f == nil || !m.isSessionVal(base) {
 		return ""
 	}
-	return f.Name()
+	return FieldName(f)
 }
 
 // MsgKindOf derives the message kind of a value passed to a send function.
@@ -612,7 +612,7 @@ func (t *Tracer) walk(fr *frame, b *ssa.BasicBlock, i int, p *pstate, k func(*ps
 				t.emit(p, fr, Event{Kind: "state", Name: t.M.StateNames[to] + "(direct store)", Instr: x, To: to, Trigger: 0})
 			} else if fa, ok := x.Addr.(*ssa.FieldAddr); ok && t.M.isSessionVal(fa.X) {
 				if f := FieldOf(fa); f != nil {
-					t.emit(p, fr, Event{Kind: "setfield", Name: f.Name(), Instr: x, Args: []ssa.Value{t.resolve(fr, p, x.Val)}})
+					t.emit(p, fr, Event{Kind: "setfield", Name: FieldName(f), Instr: x, Args: []ssa.Value{t.resolve(fr, p, x.Val)}})
 				}
 			}
 		case *ssa.UnOp:
@@ -761,7 +761,7 @@ func (t *Tracer) refine(fr *frame, cond ssa.Value, val bool, p *pstate) bool {
 				return t.refineRead(fr, x, cv, eq, val, cond.Pos(), p)
 			}
 			// a test of Session.side: the path belongs to one side from here on
-			if f, base := LoadedField(x); f != nil && f.Name() == "side" && base != nil && t.M.isSessionVal(base) {
+			if f, base := LoadedField(x); f != nil && FieldName(f) == "side" && base != nil && t.M.isSessionVal(base) {
 				acc := int64(0)
 				if k, ok := t.M.Pkg.Members["sideAcceptor"].(*ssa.NamedConst); ok {
 					if v, isInt := ConstInt(k.Value); isInt {
